@@ -15,10 +15,12 @@ def main():
         if tag in out:
             continue
         patch = os.path.join("/verif/seeded", tag, "patch.diff")
+        if os.environ.get("SEED_AS_WRITTEN") == "1" and os.path.exists(os.path.join("/verif/seeded", tag, "patch.as_written.diff")):
+            patch = os.path.join("/verif/seeded", tag, "patch.as_written.diff")     # baseline runs use the agent's commit
         d = tempfile.mkdtemp(prefix="lexmut-", dir="/var/tmp")
         res = {}
         try:
-            subprocess.check_call(["rsync", "-a", "--exclude", "target", "--exclude", ".git", "/repo/", d + "/"])
+            subprocess.check_call(["rsync", "-a", "--exclude", "target", "--exclude", ".git", os.environ.get("SEED_REPO_ROOT", "/repo").rstrip("/") + "/", d + "/"])
             r = subprocess.run(["patch", "-p1", "-s", "-d", d, "-i", patch], capture_output=True, text=True)
             if r.returncode != 0:
                 res["error"] = "patch does not apply: " + (r.stdout + r.stderr)[-300:]
